@@ -38,6 +38,11 @@ def install(R):
         return mk_bool(T.is_VNone(x.t))
     S["is_none"] = is_none
 
+    def isinst(eng, fr, x, name):
+        from pyvc.builtins import isinstance_of
+        return mk_bool(isinstance_of(eng, x, name.t.as_string(), fr))
+    S["isinst"] = isinst
+
     def ival_(eng, fr, x):
         return mk_int(eng.as_int(x, fr))
     S["ival"] = ival_
